@@ -42,6 +42,8 @@ type Frame struct {
 	funcWC    *writeConstraint
 	rangeStart map[*ssa.Range][2]*Term
 	guardTags  map[ssa.Value]*guardTag
+	siteLimit     ssa.Instruction // callspec evaluation: locals are seen as they are just before this call
+	lastLocalAddr *Term           // address of the local last resolved by localByName (nil if it lives in a register)
 	panics     []*State // states in which a callee / callback panicked (to be handled by this frame's defers)
 }
 
@@ -1565,21 +1567,27 @@ func (fr *Frame) localByName(name string, at *ssa.BasicBlock, st *State) (Val, t
 		}
 		return true
 	}
+	fr.lastLocalAddr = nil
 	for b := at; b != nil; b = b.Idom() {
 		var found ssa.Value
 		isAddr := false
+		// at a call site (callspec) the definitions of the site's own block that precede the call count too
+		inAt := b == at && !(fr.siteLimit != nil && fr.siteLimit.Block() == at)
 		for _, in := range b.Instrs {
+			if b == at && fr.siteLimit != nil && in == fr.siteLimit {
+				break
+			}
 			switch x := in.(type) {
 			case *ssa.Phi:
 				if x.Comment == name {
 					found, isAddr = x, false
 				}
 			case *ssa.DebugRef:
-				if b != at && matches(x) {
+				if !inAt && matches(x) {
 					found, isAddr = x.X, x.IsAddr
 				}
 			case *ssa.Alloc:
-				if b != at && x.Comment == name {
+				if !inAt && x.Comment == name {
 					found, isAddr = x, true
 				}
 			}
@@ -1602,6 +1610,7 @@ func (fr *Frame) localByName(name string, at *ssa.BasicBlock, st *State) (Val, t
 		v := fr.val(found)
 		if isAddr {
 			pt := found.Type().Underlying().(*types.Pointer).Elem()
+			fr.lastLocalAddr = v.T
 			return fr.fc.load(st, v.T, pt), pt, true
 		}
 		return v, found.Type(), true
